@@ -726,7 +726,7 @@ fn generated_names_case(ch: &mut Choices<'_>, st: &mut Stats) -> CaseResult {
         Field(usize, bool, bool), // prim, optional, via C API
         Function,
     }
-    let n = ch.range(1, 8);
+    let n = ch.range(1, 14);
     let mut names: Vec<String> = Vec::new();
     let mut ops: Vec<(String, Kind)> = Vec::new();
     for _ in 0..n {
@@ -898,7 +898,7 @@ pub fn run(run: &Run) {
          each replayed against an abstract registry: outcome and holder kind of every call, then counts, order, indexes, types, optionality, get_field/get_function/get_list of the built scheme, \
          resolution of 30 probe names (pool, prefixes, extensions, case variants) through the API and through parsing `name`, `name == literal`, `name()`, with execution on hit/miss contexts, \
          and identity (clone interchangeable, identical re-build not); random-histories: sequences of length 0..=12 over 6 names x 4 types x (field, optional field, function) and lists for 7 types, state compared after every prefix; \
-         generated-names: 1..8 registrations of names 1..300 bytes long (lengths around 16/32/64/128/256, families differing in one byte or one byte of length, deliberate repeats) as field / optional field / function, mandatory fields half of the time through the C API; outcomes, listing, get_field/get_function and parsing of every registered name and of unregistered neighbours (byte dropped/added/changed, upper case, dotted prefix); \
+         generated-names: 1..14 registrations of names 1..300 bytes long (lengths around 16/32/64/128/256, families differing in one byte or one byte of length, deliberate repeats) as field / optional field / function, mandatory fields half of the time through the C API; outcomes, listing, get_field/get_function and parsing of every registered name and of unregistered neighbours (byte dropped/added/changed, upper case, dotted prefix); \
          non-trivial = the history contains a rejected registration followed by an accepted one (distinct histories counted)"
     ));
     run.assume("no generated name begins with an operator keyword (not, any, all) - outside the property's pool");
